@@ -39,6 +39,9 @@ func (f DcDcConverterStateFactoryType) New(v uint8) (DcDcConverterState, error) 
 }
 
 func (f DcDcConverterStateFactoryType) NewEnum(v int) (Enum, error) {
+	if v < 0 || v > 255 {
+		return nil, ErrInvalidEnumIdx
+	}
 	return f.New(uint8(v))
 }
 
